@@ -326,6 +326,23 @@ func tryReplay(prog *Prog, fr *FuncResult, o *Obligation, timeoutS int) (string,
 	if vc == nil || vc.fn == nil || fr.Final == nil {
 		return "", nil
 	}
+	concretised := false
+	if loops, _, _ := analyzeLoops(vc.fn); len(loops) > 0 && fr.FC != nil {
+		// loops were cut at invariants: models of the cut program need not be real executions.
+		// Search the bounded unrolling instead (complete executions with at most 4 iterations per loop).
+		cfr := VerifyFuncMode(prog, fr.FC, 4)
+		var co *Obligation
+		for _, x := range cfr.Obls {
+			if x.Name == o.Name {
+				co = x
+			}
+		}
+		if cfr.Err != "" || co == nil || cfr.Final == nil {
+			return "", map[string]any{"replay_note": "obligation has no counterpart in the bounded unrolling"}
+		}
+		fr, o, vc = cfr, co, cfr.VC
+		concretised = true
+	}
 	fn := vc.fn
 	sig := fn.Signature
 	// inputs
@@ -394,7 +411,7 @@ func tryReplay(prog *Prog, fr *FuncResult, o *Obligation, timeoutS int) (string,
 	pkgDir := strings.TrimPrefix(fn.Pkg.Pkg.Path(), repoModule+"/")
 	tags := "verif"
 	out, _ := runGoTest(pkgDir, src, testName, tags)
-	extra := map[string]any{"go_test": src, "package_dir": pkgDir, "test_name": testName, "build_tags": tags, "inputs": inputsDesc, "real_output": lastLines(out, 6)}
+	extra := map[string]any{"concretised_unrolling": concretised, "go_test": src, "package_dir": pkgDir, "test_name": testName, "build_tags": tags, "inputs": inputsDesc, "real_output": lastLines(out, 6)}
 	// parse observed results
 	idx := strings.Index(out, "VERIF-REPLAY ")
 	if idx < 0 {
